@@ -144,7 +144,7 @@ def step (d : DSt) (ws : List String) : DSt × String :=
       let len := if l == "=" then (match liveIdx d a with | some i => (d.live[i]!).len | none => 0) else natArg l
       (d, s!"status {(checkStatus d.s addr len (al == "1")).name}")
     | ["check"] => (d, stateLine d)
-    | ["sync"] => (d, "sync 0")
+    | ["sync"] => ({ d with s := sync d.s }, "sync 0")
     | ["reopen"] =>
       let (s, rc) := reopen d.s d.noTrim
       ({ d with s := s }, s!"reopen {rc.name} {s.fsize}")
